@@ -57,7 +57,11 @@ VALUE_TABLE = {
                           "2020-01-02T03:04:05.250000", "2020-01-02T03:04:05+02:00",
                           "2020-01-02 03:04:05.250000", "2020-01-02T03:04:05Z"]},
     "2-tuple": {"good": [{"list": ["1", "2"]}, {"list": [" 39.12", "67.19 "]}, {"tuple": ["a ", " b"]},
-                         {"list": ["a", ""]}],
+                         {"list": ["a", ""]},
+                         # values that are tuples already (the form they are stored in)
+                         {"list": [{"list": ["a", "b"]}]}, {"list": [{"list": ["x", ""]}, {"list": ["1", "2"]}]},
+                         {"list": [{"tuple": [1, 2]}]}, {"list": [{"list": ["a;b", "c"]}]},
+                         {"list": [{"list": ["(a", "b)"]}]}, {"list": [{"list": [" a", "b "]}]}],
                 "text": ["(1;2)", "(a; b)", "( 3 ; 4 )", "(a;)", "(;b)"],
                 "near": ["(1;2;3)", "1;2", {"list": ["1", "2", "3"]}, "(1)", {"list": [1, 2]}]},
     "3-tuple": {"good": [{"list": ["1", "2", "3"]}], "text": ["(1;2;3)"],
